@@ -34,6 +34,8 @@ def configs(tier):
         for length in ("R", "A"):
             for op in OPS:
                 out.append(dict(group="filter", nalt=nalt, length=length, op=op))
+    for op in OPS:  # a record without ALT: the reference's own value decides (R-length field)
+        out.append(dict(group="filter", nalt=0, length="R", op=op))
     for prog in ("call", "call_exact", "call_pedigree"):
         out.append(dict(group="invalid", prog=prog))
     for nA in (2, 3):
